@@ -58,10 +58,12 @@ def queries(tier, prop='C18'):
             for a in range(amax + 1):
                 for b in range(bmax + 1):
                     ents = [e for e in TWO + (ONE if b == 0 else []) if g == 0 or e in GVAR[w]]
+                    nb = (4 if w else 1) * (a + b + 2) + 2     # byte loops of the runtime (wmemcpy/wmemmove builtins, loops clang turned into llvm.mem*)
+                    us = {'ll_memcpy.0': nb, 'll_memmove.0': nb, 'll_memmove.1': nb, 'll_memset.0': nb}
                     for e in ents:
                         if e in ONE and b != 0:
                             continue
-                        q = dict(entry='q_' + e, cfg={'W': w, 'G': g, 'A': a, 'B': b}, unwind=a + b + 4, budget=120 if tier == 'quick' else 600, ub=ub, nofunc=ub)
+                        q = dict(entry='q_' + e, cfg={'W': w, 'G': g, 'A': a, 'B': b}, unwind=a + b + 4, unwindset=us, budget=120 if tier == 'quick' else 600, solver=['cadical', 'minisat'], ub=ub, nofunc=ub)
                         # configurations wholly inside an open known-finding region: only the confirm query may use them
                         if e == 'strstr' and b == 0 and 'C18_strstr_suffix_only' in opn:
                             q['confirm_only'] = True
